@@ -56,6 +56,8 @@ pub enum AcceptDecision {
 
 pub struct Script {
     pub calls: Vec<Call>,
+    /// global sequence number of each entry of `calls` (orders the calls made on two transports of one node)
+    pub call_seq: Vec<u64>,
     queue: VecDeque<TransportEvent>,
     waker: Option<Waker>,
     pub handle: Option<TransportHandle>,
@@ -91,6 +93,7 @@ impl ScriptHandle {
     pub fn new() -> Self {
         ScriptHandle(Arc::new(Mutex::new(Script {
             calls: Vec::new(),
+            call_seq: Vec::new(),
             queue: VecDeque::new(),
             waker: None,
             handle: None,
@@ -165,7 +168,17 @@ impl ScriptHandle {
     }
 
     pub fn take_calls(&self) -> Vec<Call> {
-        std::mem::take(&mut self.0.lock().calls)
+        let mut s = self.0.lock();
+        s.call_seq.clear();
+        std::mem::take(&mut s.calls)
+    }
+
+    /// the recorded calls with their process-wide sequence numbers
+    pub fn take_calls_seq(&self) -> Vec<(u64, Call)> {
+        let mut s = self.0.lock();
+        let seq = std::mem::take(&mut s.call_seq);
+        let calls = std::mem::take(&mut s.calls);
+        seq.into_iter().zip(calls).collect()
     }
 
     pub fn calls_len(&self) -> usize {
@@ -200,10 +213,16 @@ impl ScriptedTransport {
     fn record(&self, call: Call) {
         let mut s = self.0 .0.lock();
         s.calls.push(call);
+        s.call_seq.push(next_call_seq());
         if let Some(w) = s.call_waker.take() {
             w.wake();
         }
     }
+}
+
+fn next_call_seq() -> u64 {
+    static SEQ: std::sync::atomic::AtomicU64 = std::sync::atomic::AtomicU64::new(0);
+    SEQ.fetch_add(1, std::sync::atomic::Ordering::SeqCst)
 }
 
 impl Transport for ScriptedTransport {
@@ -216,6 +235,7 @@ impl Transport for ScriptedTransport {
         let id = connection_id.verif_raw();
         let mut s = self.0 .0.lock();
         s.calls.push(Call::Accept { id });
+        s.call_seq.push(next_call_seq());
         if let Some(w) = s.call_waker.take() {
             w.wake();
         }
